@@ -37,7 +37,9 @@ def explore(run, focus, thorough):
     """all single-reader schedules: every observation point x {probe, hold}. focus: 'C08' | 'C09'"""
     n = hook_count()
     stats = {"observation_points": n, "schedules": 0, "events": 0, "reader_granted": 0, "reader_blocked": 0, "held_across": 0, "wx_samples": 0, "repeats": 3 if thorough else 1}
-    jobs = [(k, m) for k in range(n) for m in ("probe", "hold")] * stats["repeats"]
+    # probe / hold: a reader arrives while the assembling thread is parked at the point; abort: the assembling thread PANICS at the point
+    # (a failing `expect` on mprotect, a panic in the user's alter closure) and a reader that outlives it tries the lock afterwards
+    jobs = [(k, m) for k in range(n) for m in ("probe", "hold", "abort")] * stats["repeats"]
     results = common.parallel_map(lambda j: (j, run_schedule(*j)), jobs, workers=8)
     reported = set()
 
@@ -96,6 +98,10 @@ def explore(run, focus, thorough):
                     report("reader-sees-incomplete", last_hook, f"schedule park={k} {mode}: a reader was granted the lock after `{last_hook}` and saw a buffer ({l}) that is not the committed contents of any completed commit/alter", payload)
             if l == "rlock blocked":
                 stats["reader_blocked"] += 1
+            if l == "abort":
+                stats["aborts"] = stats.get("aborts", 0) + 1
+            if l == "rlock poisoned":
+                stats["reader_refused_poisoned"] = stats.get("reader_refused_poisoned", 0) + 1
             if l.startswith("held "):
                 stats["held_across"] += 1
                 if d.get("stable") != "1" and focus == "C09":
@@ -125,6 +131,8 @@ def explore(run, focus, thorough):
                 if ma.get("cur") and d.get("cur") and ma["cur"] != d["cur"]:
                     report("protection-differs", last_hook, f"schedule park={k} {mode}: at `{last_hook}` the mapping that holds the committed code is {d['cur']}, the model says {ma['cur']}",
                            dict(payload, model_answer=a), found=False)
+        if mode == "abort":
+            continue
         if focus == "C09" and [v for v in versions] != ["1", "2", "3", "4"][:len(versions)]:
             report("commit-not-visible", tuple(versions), f"schedule park={k} {mode}: after the operations returned, readers saw versions {versions} instead of 1, 2, 3, 4", payload)
         if focus == "C09" and not any(l == "end" for l in lines) and not any(l.startswith("deadlock") for l in lines):
